@@ -285,7 +285,11 @@ func runC16(t *rapid.T) {
 				nIn := simkit.Int(t, "ninstr", 0, 5)
 				for k := 0; k < nIn; k++ {
 					u := universe[simkit.Int(t, "uk", 0, len(universe)-1)]
-					switch simkit.Int(t, "iop", 0, 5) {
+					switch simkit.Int(t, "iop", 0, 7) {
+					case 6:
+						prog = append(prog, simmod.Instr{Op: simmod.OpGet, Store: u.store, Sub: u.sub, Key: u.key})
+					case 7:
+						prog = append(prog, simmod.Instr{Op: simmod.OpHas, Store: u.store, Sub: u.sub, Key: u.key})
 					case 0, 1:
 						valCtr++
 						v := []byte(fmt.Sprintf("v%d", valCtr))
